@@ -244,6 +244,12 @@ def gen_cases(chk, mags, fixbits, scale):
         if x.denominator == (1 << fixbits) or y.denominator == (1 << fixbits):
             continue                   # lowest-terms ratios with denominator 2^fixbits cannot be read back reliably (finding ratio:denominator)
         add("keep", (x, y), (), op, tag="keep")
+    for x in core:                      # deterministic part: core lattice x a few divisors of either sign
+        for y in (3, -3, fx + 1, -(fx + 1), -((1 << 64) + 1), (1 << 128) - 1, -((1 << 128) - 1)):
+            for op in ("/", "floor-quotient", "*", "remainder"):
+                add("keep", (x, y), (), op, tag="keep")
+    add("<", (1, Fraction(-(fx - 1), 2)), tag="cross-product")
+    add(">", (-1, Fraction(1, fx - 1)), tag="cross-product")
     # 9. exact <-> inexact of representable values
     dbls = []
     for e in [0, 1, 2, 1022, 1023, 1024, 1074, 1075, 1076, 1023 + 52, 1023 + 53, 1023 + 61, 1023 + 62, 1023 + 63, 1023 + 64, 1023 + 127,
@@ -269,6 +275,11 @@ def gen_cases(chk, mags, fixbits, scale):
         vals = [0, 1, -1, radix - 1, radix, -radix, radix ** 2 - 1, fx - 1, fx, -fx, -fx - 1, (1 << 64) - 1, 1 << 64, -(1 << 128), radix ** 30, radix ** 40 - 1]
         vals += [rng.choice(L) for _ in range(3 if not T else 12)] + [rnd_int(rng, 400) for _ in range(3 if not T else 12)]
         rats = [rnd_rat() for _ in range(2 if not T else 8)]
+        if radix != 10:                 # ratio texts whose numerator needs a bignum while reading
+            for den in ("10", "11", "2"):
+                if all(DIGITS.index(ch) < radix for ch in den):
+                    add("string->number", (), (radix,), "1" + "0" * 70 + "/" + den, tag="text",
+                        key="string->number:bignum-numerator-ratio:radix-not-10")
         for v in vals + rats:
             v = Fraction(v)
             add("number->string", (v,), (radix,), tag="text")
